@@ -294,3 +294,5 @@ PROPS["C20"]["claim"] = PROPS["C20"]["explanation"] = PROPS["C20"]["explanation"
     " In the thorough tier every unit is verified a third time with feature docgen (no parsing unit has a docgen gate; the gated HelpItem::Command field is handled by a cfg'd spec).")
 PROPS["C14"]["claim"] = PROPS["C14"]["explanation"] = PROPS["C14"]["explanation"] + (
     " ArgScanner::done / Complete::new (real bodies): completion mode exists iff the completion marker was seen, and starts with no candidates.")
+PROPS["C18"]["claim"] = PROPS["C18"]["explanation"] = PROPS["C18"]["explanation"] + (
+    " lemma.C18.undeclared_variables_are_irrelevant: the value read depends on the environment only at the declared names (two environments that agree there give the same result).")
